@@ -551,17 +551,17 @@ func knownDistinct(a, b *Term) bool {
 func blkDistinct(a, b *Term) bool {
 	isParam := func(t *Term) (bool, *big.Int) {
 		base, c := linear(t)
-		if base != nil && base.Op == "var" && strings.HasPrefix(base.Name, "blk!") && c.Cmp(big.NewInt(64)) < 0 {
+		if base != nil && base.Op == "var" && strings.HasPrefix(base.Name, "blk!") && c.Cmp(big.NewInt(4096)) < 0 {
 			return true, c
 		}
 		return false, nil
 	}
 	if a.Op == "const" && a.Val.Sign() != 0 {
 		// spec temporaries never escape: no symbolic block value denotes them
-		if b.Op != "const" && a.Val.Cmp(big.NewInt(0x100000)) >= 0 && a.Val.Cmp(big.NewInt(0x200000)) < 0 {
+		if b.Op != "const" && a.Val.Cmp(big.NewInt(0x4000000)) >= 0 && a.Val.Cmp(big.NewInt(0x8000000)) < 0 {
 			return true
 		}
-		if ok, _ := isParam(b); ok && a.Val.Cmp(big.NewInt(0x400000)) < 0 {
+		if ok, _ := isParam(b); ok && a.Val.Cmp(big.NewInt(0x10000000)) < 0 {
 			return true
 		}
 	}
